@@ -75,6 +75,8 @@ def parse_catalogue(path):
             cur = {'name': parts[0], 'tags': parts[1:], 'terms': None, 'lines': []}
         elif line.startswith('terms:'):
             cur['terms'] = line[len('terms:'):].split()
+        elif line.startswith('root:'):
+            cur['root'] = line[len('root:'):].strip()       # the start symbol when it is not the first left side
         else:
             cur['lines'].append(line)
     if cur:
@@ -114,7 +116,7 @@ def _finish(c):
                 ts.append(s)
     for t in ts:
         assert len(t) == 1, (c['name'], t)
-    return Grammar(c['name'], nts, ts, nts[0], prods, tprec, tassoc, c['tags'])
+    return Grammar(c['name'], nts, ts, c.get('root', nts[0]), prods, tprec, tassoc, c['tags'])
 
 
 # ---------------------------------------------------------------- host mapping
